@@ -271,7 +271,7 @@ def run(tier, seed):
     q = tier == "quick"
     cfg = make_cfg(seed, 1 if q else 2)
     depth = {"h5": 3 if q else 4, "ih5": 2 if q else 3}
-    budget = 170 if q else 2400
+    budget = 600 if q else 2400
     t0 = time.time()
     fam, violations, samples = {}, [], []
     cfg_odd = make_cfg(seed, 1, name="c08odd")
